@@ -50,11 +50,17 @@ Check(c) ==
     \* properties BY TLC; what is outside is skipped, never judged
     IF c.rand /\ ~InScope(P, L0) THEN "skip:OutOfScope"
     ELSE IF c.outcome # "ok" THEN "rej:NoError"
-    ELSE IF ~ranged /\ ~c.nostream /\ c.stream # Encode(L0) THEN "rej:C10_StreamIsEncode"
-    ELSE IF ranged /\ ~StreamWellFormed(c.stream) THEN "rej:C10_WellFormed"
+    ELSE IF ~ranged /\ ~c.nostream /\ ~c.obs /\ c.stream # Encode(L0) THEN "rej:C10_StreamIsEncode"
+    ELSE IF (ranged \/ c.obs) /\ ~StreamWellFormed(c.stream) THEN "rej:C10_WellFormed"
+    \* c.obs: the operand texts are taken from the observed stream (forms for which C09 fixes no normal form);
+    \* number, addresses and mnemonics must still be the listing's
+    ELSE IF c.obs /\ (Len(Decode(c.stream)) # n
+                      \/ \E k \in 1..n : Decode(c.stream)[k].addr # L0[k].addr \/ Decode(c.stream)[k].mn # L0[k].mn
+                                           \/ Len(Decode(c.stream)[k].ops) # Len(L0[k].ops))
+         THEN "rej:C08_AddrMnemonic"
     ELSE IF ranged /\ ~AllowedTagging(L0, Decode(c.stream), c.range[1], c.range[2]) THEN "rej:C18_Tagging"
     ELSE IF ~(Aligned(c.all) /\ Aligned(c.first)) THEN "rej:C07_Aligned"
-    ELSE LET L   == IF ranged THEN Decode(c.stream) ELSE L0
+    ELSE LET L   == IF ranged \/ c.obs THEN Decode(c.stream) ELSE L0
              cx  == Cx(L, c.mfm, c.ofm)
              sp  == Spans(P, cx)
              all == Pairs(c.all)
